@@ -11,6 +11,7 @@ import (
 	"strings"
 
 	structform "github.com/elastic/go-structform"
+	"github.com/elastic/go-structform/gotype"
 )
 
 // ---- named scalars, slices, maps ----
@@ -197,6 +198,31 @@ func FoldRDur(d *RDur, v structform.ExtVisitor) error {
 	return v.OnString(strconv.FormatInt(int64(*d), 10) + "ns")
 }
 
+// FDeleg implements Folder by DELEGATING to the library: its Fold method calls
+// gotype.Fold on a struct that inlines an interface (the map). Folding is
+// re-entered from inside a folder, as applications wrapping values do.
+type FDeleg struct {
+	A int
+	M map[string]interface{}
+}
+
+type fDelegInner struct {
+	A int
+	I interface{} `struct:",inline"`
+}
+
+func (f FDeleg) Fold(v structform.ExtVisitor) error {
+	in := fDelegInner{A: f.A}
+	if f.M != nil {
+		in.I = f.M
+	}
+	return gotype.Fold(in, v, SharedFoldOpt)
+}
+
+// SharedFoldOpt is the ONE Folders(...) option value of the process (registered
+// folders of RegT and RDur), as an application keeps it in a package variable.
+var SharedFoldOpt = gotype.Folders(FoldRegT, FoldRDur)
+
 // RegT is folded by a registered folder function (Folders option).
 type RegT struct{ X int }
 
@@ -307,6 +333,7 @@ var Pool = []PoolType{
 	{Name: "FLevel", Type: reflect.TypeOf(FLevel(0)), FoldOnly: true},
 	{Name: "FFlag", Type: reflect.TypeOf(FFlag(false)), FoldOnly: true},
 	{Name: "RDur", Type: reflect.TypeOf(RDur(0)), FoldOnly: true},
+	{Name: "FDeleg", Type: reflect.TypeOf(FDeleg{}), FoldOnly: true},
 	{Name: "FTags", Type: reflect.TypeOf(FTags(nil)), FoldOnly: true},
 	{Name: "FCounts", Type: reflect.TypeOf(FCounts(nil)), FoldOnly: true},
 	{Name: "FAnyMap", Type: reflect.TypeOf(FAnyMap(nil)), FoldOnly: true},
